@@ -134,7 +134,38 @@ def binary_data(rs, nr, nv, fam):
     return X.astype(np.float32)
 
 
+_CTX = [None]
+
+
+def _hang(name, a, k):
+    ctx = _CTX[0]
+    if ctx is None:
+        return
+    data = a[0] if a and hasattr(a[0], 'shape') else None
+    cfg = {kk: (vv if isinstance(vv, (int, float, str, bool, type(None))) else getattr(vv, '__name__', str(type(vv)))) for kk, vv in k.items()}
+    ctx.count('learner-calls-that-did-not-return-in-time')
+    # C04 speaks about learners that return; a learner that does not halt contradicts the proved termination of the queue machine
+    # (C05Term.learn_terminates): reported as a broken correspondence, the search for a returned invalid circuit goes on
+    ctx.violation('c04-learner-does-not-halt', f'{name}({cfg}) did not return within the time limit on a {getattr(data, "shape", None)} data set, although the '
+                                                f'Lean queue machine halts within B = 5*rows*cols - 3 iterations for every splitter behaviour (learn_terminates)',
+                  replay=dict(kind='c04-hang', learner=name, cfg=cfg, data=(data.tolist() if data is not None and data.size <= 4000 else None)), found_input=False)
+
+
 def run(ctx):
+    _CTX[0] = ctx
+    g = globals()
+    from harness.common import limited
+    for nm in ('learn_spn', 'learn_estimator', 'learn_classifier', 'learn_expc'):
+        if nm in g and not getattr(g[nm], '_limited', False):
+            g[nm] = limited(g[nm], 40 if ctx.tier == 'quick' else 120, _hang)
+            g[nm]._limited = True
+    if not getattr(LS.learn_spn, '_limited', False):
+        LS.learn_spn = limited(LS.learn_spn, 40 if ctx.tier == 'quick' else 120, _hang)
+        LS.learn_spn._limited = True
+    if not getattr(XD.X.learn_xpc, '_limited', False):
+        XD.X.learn_xpc = limited(XD.X.learn_xpc, 60 if ctx.tier == 'quick' else 180, _hang)
+        XD.X.learn_xpc._limited = True
+
     quick = ctx.tier == 'quick'
     # (i) LearnSPN under scripted splitters (every oracle behaviour incl. degenerate ones): structure valid whatever the splitters answer
     scen = L.gen_scenarios(60 if quick else 600, ctx.seed * 31 + 5)
@@ -221,7 +252,7 @@ def run(ctx):
             ctx.case(f'{rsplit}/{csplit}/{leaf}', nontrivial_key=(rsplit, csplit, leaf, fam, nr, nv), sample=dict(rows=rsplit, cols=csplit, leaf=leaf, data=fam, shape=[nr, nv]))
             ctx.count('grid:' + leaf)
             validate(ctx, root, nv, rep, f'learn_estimator({rsplit},{csplit},{leaf}) on {fam} data {nr}x{nv}')
-            if ctx.n_new() >= 3:
+            if ctx.n_new(with_input_only=True) >= 3:
                 return
     # (ii-b) user-supplied splitters whose cluster labels are not 0..k-1 (any labelling is a legitimate clustering), real leaf learners
     for k in range(12 if quick else 120):
@@ -249,7 +280,7 @@ def run(ctx):
         ctx.case('custom-labels', nontrivial_key=('labels', k), sample=dict(labels=label_sets, shape=[nr, nv]))
         ctx.count('custom-label-splitters')
         validate(ctx, root, nv, rep, f'learn_spn with cluster labels {label_sets}')
-        if ctx.n_new() >= 3:
+        if ctx.n_new(with_input_only=True) >= 3:
             return
     # (iii) continuous / categorical / mixed leaves incl. a constant column
     for k in range(8 if quick else 80):
@@ -274,7 +305,7 @@ def run(ctx):
         ctx.case('cont:' + dist.__name__, nontrivial_key=('cont', k), sample=dict(dist=dist.__name__, shape=[nr, nv], constant_column=((k // 4) % 2 == 0)))
         ctx.count('leaf-family:' + dist.__name__)
         validate(ctx, root, nv, rep, f'learn_estimator({dist.__name__}) {"with a constant column" if (k // 4) % 2 == 0 else ""}', discrete=False)
-        if ctx.n_new() >= 3:
+        if ctx.n_new(with_input_only=True) >= 3:
             return
     # (iii-b) mixed leaf families / domains per column with columns that are constant inside clusters (REM_FEATURES below a column split)
     for k in range(10 if quick else 100):
@@ -317,7 +348,7 @@ def run(ctx):
             ctx.violation('c04-leaf-family', 'learn_spn on mixed data: ' + bad, replay=rep)
         else:
             validate(ctx, root, X.shape[1], rep, 'learn_spn on mixed Bernoulli/Categorical/Gaussian data', discrete=False)
-        if ctx.n_new() >= 3:
+        if ctx.n_new(with_input_only=True) >= 3:
             return
     # (iv) classifier wrapper
     for k in range(4 if quick else 40):
@@ -337,13 +368,13 @@ def run(ctx):
         ctx.count('classifier')
         validate(ctx, root, nv + 1, dict(kind='c04', learner='learn_classifier', data=D.tolist()), 'learn_classifier', discrete=False)
     # (v) XPC and ensemble-XPC
-    n_x = 24 if quick else 400
+    n_x = 40 if quick else 600
     for k in range(n_x):
         rs = np.random.RandomState(np_seed(ctx.sub_rng('xpc', k)))
-        nv = int(rs.choice([5, 8, 10])); nr = int(rs.choice([60, 150, 300]))
+        nv = int(rs.choice([2, 3, 4, 5, 8, 10])); nr = int(rs.choice([60, 150, 300]))
         X = binary_data(rs, nr, nv, fams[k % 4])
         det = bool(rs.rand() < 0.4); sd = bool(rs.rand() < 0.6); use_clt = bool(det or rs.rand() < 0.7)
-        cfg = dict(det=det, sd=sd, min_part_inst=int(rs.choice([5, 10, 30])), conj_len=int(rs.choice([1, 2, 3])), arity=int(rs.choice([2, 3, 4])),
+        cfg = dict(det=det, sd=sd, min_part_inst=int(rs.choice([5, 10, 30])), conj_len=(nv if (k % 4 == 1 and nv <= 5) else int(rs.choice([1, 2, 3]))), arity=int(rs.choice([2, 3, 4])),
                    use_clt=use_clt, random_seed=int(rs.randint(1000)))
         ens = (k % 3 == 2)
         rep = dict(kind='c04', learner='learn_expc' if ens else 'learn_xpc', data=X.astype(int).tolist(), cfg=cfg)
@@ -386,7 +417,7 @@ def run(ctx):
                 a2 = drv.ask(dict(op='xpc_scopes', use_clt=use_clt, det=det, part=pj))
                 if not a2.startswith('laminar=true'):
                     ctx.violation('c04-xpc-model-not-laminar', f'learn_xpc({cfg}): model says the scope family is not laminar', replay=rep, found_input=False)
-        if ctx.n_new() >= 3:
+        if ctx.n_new(with_input_only=True) >= 3:
             return
 
 
